@@ -99,7 +99,9 @@ def generate(rng, seed, part):
     for p in range(P):
         idx = [i for i in range(n) if assign[i] == p]
         partials.append({"idx": idx, "dtype": build.pick_dtype(rng, wkind),
-                         "path": rng.choice(["construct", "fill_n", "fill_n", "fill"])})
+                         "path": rng.choice(["construct", "fill_n", "fill_n", "fill"]),
+                         # in adaptive mode some partials are frozen (non-adaptive) on the common grid afterwards
+                         "frozen": mode == "adaptive" and bool(idx) and rng.random() < 0.25})
     ops = []
     nodes = list(range(P))  # node ids; new results get fresh ids
     nxt = P
@@ -214,11 +216,15 @@ def build_partial(cfg, entries, spec):
                 kw["bin_shift"] = shifts[0]
             if dtype is not None:
                 kw["dtype"] = dtype
-            return f_h1(data[:, 0] if len(idx) else None, "fixed_width", **kw)
-        kw["bin_width"] = [a["width"] for a in cfg["axes"]]
-        if any(x is not None for x in shifts):
-            kw["bin_shift"] = shifts
-        return f_h(data if len(idx) else None, "fixed_width", dim=ndim, **kw)
+            out = f_h1(data[:, 0] if len(idx) else None, "fixed_width", **kw)
+        else:
+            kw["bin_width"] = [a["width"] for a in cfg["axes"]]
+            if any(x is not None for x in shifts):
+                kw["bin_shift"] = shifts
+            out = f_h(data if len(idx) else None, "fixed_width", dim=ndim, **kw)
+        if spec.get("frozen"):
+            out.set_adaptive(False)
+        return out
     if path == "construct":
         kw = {}
         if weights is not None:
@@ -230,6 +236,13 @@ def build_partial(cfg, entries, spec):
         return f_h(data, axes, **kw)
     hs = {"axes": cfg["axes"], "dtype": spec["dtype"], "keep_missed": True}
     h = build.make_empty(hs)
+    if spec.get("frozen"):
+        def freeze(x):
+            x.set_adaptive(False)
+            return x
+    else:
+        def freeze(x):
+            return x
     if path == "fill":
         for k, i in enumerate(idx):
             v = data[k, 0] if ndim == 1 else data[k].tolist()
@@ -240,7 +253,7 @@ def build_partial(cfg, entries, spec):
     else:
         kw = {} if weights is None else {"weights": weights}
         h.fill_n(data[:, 0] if ndim == 1 else data, **kw)
-    return h
+    return freeze(h)
 
 
 def direct_replica(cfg, entries, bag, like):
@@ -257,6 +270,8 @@ def direct_replica(cfg, entries, bag, like):
                 for b in like.binnings]
     kw = {} if weights is None else {"weights": weights}
     if ndim == 1:
+        if not bool(bins[0].is_consecutive()):
+            kw["dtype"] = np.float64  # (integer dtype + gapped bins is C03's known finding; not the subject here)
         return f_h1(data[:, 0], bins[0], **kw)
     return f_h(data, bins, **kw)
 
@@ -414,6 +429,24 @@ def execute(plan, ctx, rules=("C05",)):
                 ctx.fault("operand_swap")
             ctx.ev("reduce", o, (op["a"], op["b"]), "ok" if ok else exc_tag(res))
             ctx.abstract(o, type(a.h).__name__, str(a.h.dtype), str(b.h.dtype), ok)
+            lefts = [a.h, b.h] if o == "commute" else [a.h]
+            rights = [b.h, a.h] if o == "commute" else [b.h]
+            must_refuse = any((not l.is_adaptive()) and not bins_equal(l, r) for l, r in zip(lefts, rights))
+            if must_refuse:
+                # a frozen (non-adaptive) left operand over other bins: "incompatible bins (without adaptivity)"
+                ctx.fault("refusal_probe")
+                if ok:
+                    ctx.violation("C05/refusal", f"C05/not-refused/frozen-left-operand/{o}",
+                                  f"{o}: the left operand is not adaptive and has other bins than the right one, "
+                                  f"yet the addition was accepted")
+                if c05:
+                    da, db = snap_diff(pre_a, snap(a.h), ignore=("dtype",)), snap_diff(pre_b, snap(b.h), ignore=("dtype",))
+                    da = [x for x in da if not lossless_promotion_only(x, pre_a, snap(a.h))]
+                    db = [x for x in db if not lossless_promotion_only(x, pre_b, snap(b.h))]
+                    if da or db:
+                        ctx.violation("C05/refusal", f"C05/refused-but-changed/frozen-left-operand/{o}",
+                                      f"refused {o} changed its operands: left {da} right {db}")
+                continue
             if not ok:
                 if c05:
                     ctx.violation("C05/valid-add-accepted", f"C05/add-raised/{kind}/{exc_tag(res)}",
@@ -462,6 +495,10 @@ def execute(plan, ctx, rules=("C05",)):
             if len(items) > 2:
                 ctx.fault("tree_shape")
             if not ok:
+                frozen_first = (not items[0].h.is_adaptive()) and any(not bins_equal(items[0].h, x.h) for x in items[1:])
+                if frozen_first:
+                    ctx.fault("refusal_probe")
+                    continue
                 if c05:
                     ctx.violation("C05/valid-add-accepted", f"C05/add-raised/{kind}/{exc_tag(res)}",
                                   f"{o} over {len(items)} compatible histograms raised {res!r}")
@@ -541,6 +578,11 @@ def execute(plan, ctx, rules=("C05",)):
                               f"nodes {i0} and {i1} hold the same {len(bag)} entries via different reduction trees")
     if n_reduce >= 2:
         ctx.nontrivial += 1
+
+
+def bins_equal(x, y):
+    return x.ndim == y.ndim and all(np.array_equal(np.asarray(p.bins), np.asarray(q.bins))
+                                    for p, q in zip(x.binnings, y.binnings))
 
 
 def lossless_promotion_only(field, pre, post):
